@@ -44,6 +44,12 @@ CHECKS = {
          "(every listed section has a key, every listed key exists with a value, defaults for missing keys, termination). Grammar: files derived from the documented format together with the model they were "
          "derived from; sections, keys, strings and int/double/boolean/list getters must equal the model.",
     note="Generator stays inside what pinifile.h documents (listed in evidence assumptions); double getter compared with 1e-12 relative tolerance."),
+ "C08": dict(cat="exploration", ref="§3 C08",
+    technique="runtime reference-model monitor (FIFO byte queue) after every call + offline exactly-once/order/atomicity checker over producer/consumer logs; ASan and TSan builds",
+    text="Sequential: every write/read/clear/space query on capacities 1..9000 through several handles is compared with a reference ring after the call (return value, bytes, used+free, "
+         "sentinels beyond the count, header words and zero tail of the segment via an independent mapping). Concurrent: threads and forked processes exchange fixed-size checksummed records; "
+         "any torn record, loss, duplicate or per-producer reorder is a violation; TSan watches the threaded runs.",
+    note="Known finding (KNOWN_FINDINGS.txt): handle opened with a smaller size argument. Wild writes far outside the segment are not observable."),
 }
 
 NOT_YET = {}
